@@ -351,6 +351,39 @@ class Machine:
                         self.depth -= 1
                 new = []
                 ns.rt.guarded(cond)(run_body)()
+            elif kind == "lazy":
+                _, form, cref, body, oref = stmt
+                cond, other = self.vals[cref], self.vals[oref]
+                rec_body = []
+                stmt = ["lazy", form, cref, rec_body, oref]
+
+                def branch():
+                    saved = self._cur
+                    self._cur = rec_body
+                    self.depth += 1
+                    n0 = len(self.vals)
+                    try:
+                        if body_fn is not None:
+                            body_fn(self)
+                        else:
+                            for s in body:
+                                out = self.exec_stmt(s)
+                                if out[0] == "raise":
+                                    raise _Abort()
+                    finally:
+                        self._cur = saved
+                        self.depth -= 1
+                    for i in range(len(self.vals) - 1, n0 - 1, -1):
+                        if self.types[i] in "IBF":
+                            return self.vals[i]
+                    return other
+                if form == "true":
+                    res = ns.br.if_then_else(cond, branch, other)
+                elif form == "false":
+                    res = ns.br.if_then_else(cond, other, branch)
+                else:
+                    res = ns.br.if_then_else(cond, branch, lambda: other)
+                new = self.bind(res)
             else:
                 raise env.HarnessError("unknown statement %r" % (stmt,))
         except _Abort:
@@ -455,6 +488,7 @@ class Gen:
         self.allow_ignore = allow_ignore
         self.labels = set()
         self.guard_forms = ["lc", "lc", "lc", "bool"]
+        self.allow_lazy = True
         self.ivals = value_strategy if value_strategy is not None else int_values(st, machine.cfg["b"])
 
     def _pick_weighted(self):
@@ -518,6 +552,8 @@ class Gen:
             return stmt, m.exec_stmt(stmt)
         if self.allow_guard and m.depth < 3 and draw(st.integers(0, 7)) == 0:
             return self.guard_step()
+        if self.allow_guard and self.allow_lazy and m.depth < 3 and draw(st.integers(0, 11)) == 0:
+            return self.lazy_step()
         op = self._pick_weighted()
         want_in_domain = draw(st.floats(0, 1, allow_nan=False)) >= self.p_ood
         refs = None
@@ -579,6 +615,33 @@ class Gen:
         stmt = ["guard", form, ref, []]
         out = m.exec_stmt(stmt, body_fn=body)
         return m._cur[-1] if m._cur else stmt, out
+
+
+def _lazy_step(self):
+    draw, st, m = self.draw, self.st, self.m
+    form = draw(st.sampled_from(["true", "false", "both"]))
+    cands = [i for i, t in enumerate(m.types) if t == "B"]
+    cref = draw(st.sampled_from(cands)) if cands and draw(st.booleans()) else self.fresh("B")
+    if cref is None:
+        return None
+    ocands = [i for i, t in enumerate(m.types) if t in "I"]
+    oref = draw(st.sampled_from(ocands)) if ocands and draw(st.booleans()) else self.fresh("I")
+    if oref is None:
+        return None
+    n = draw(st.integers(1, 3))
+    self.labels.add("lazy:%s:%s" % (form, m.refval(cref)))
+
+    def body(mm):
+        for _ in range(n):
+            self.step()
+            if mm.raised:
+                raise _Abort()
+    stmt = ["lazy", form, cref, [], oref]
+    out = m.exec_stmt(stmt, body_fn=body)
+    return m._cur[-1] if m._cur else stmt, out
+
+
+Gen.lazy_step = _lazy_step
 
 
 def generate(draw, st, cfg, n_stmts, after=None, **gen_kw):
